@@ -236,12 +236,107 @@ def gen_freeze_cases(ctx):
             shape2d = [rows, len(lons) // rows]
         if kind.startswith("swath_xr") and shape2d is None and len(lons) < 1:
             kind = "numpy"
-        cases.append({"crs": crs, "crs_kind": ck, "points": pc, "pattern": pat,
+        via = None
+        if not ctor.get("area_extent") and (("width" in ctor) == ("height" in ctor)) and ctor and r.random() < 0.5:
+            via = "create_area_def"       # the other public entry point that builds a DynamicAreaDefinition
+        cases.append({"crs": crs, "crs_kind": ck, "points": pc, "pattern": pat, "via": via,
                       "ctor": {k: (res_json(v) if k == "resolution" else ([hexs(x) for x in v] if k == "area_extent" else v)) for k, v in ctor.items()},
                       "freeze": {k: (res_json(v) if k == "resolution" else v) for k, v in fz.items()},
                       "lons": [hexs(v) for v in lons], "lats": [hexs(v) for v in lats], "shape2d": shape2d, "kind": kind,
                       "chunks": r.choice([1, 2, 3, 5, 100])})
+    cases += gen_optimize_cases(ctx)
     return cases
+
+
+def gen_optimize_cases(ctx):
+    """optimize_projection=True: 2-D swaths (curved scan lines, interior extremes) frozen through compute_optimal_bb_area"""
+    r = ctx.rng
+    out = []
+    for _ in range(ctx.n(40, 500)):
+        nrow, ncol = r.choice([3, 4, 6, 10]), r.choice([3, 5, 8])
+        lat0 = r.choice([-60.0, -20.0, 10.0, 45.0, 70.0]) + r.uniform(-5, 5)
+        lon0 = r.choice([-150.0, -30.0, 20.0, 100.0, 160.0]) + r.uniform(-5, 5)
+        dlat, dlon = r.choice([0.3, 1.0, 2.5]) * r.choice([1, -1]), r.choice([0.5, 2.0, 5.0])
+        bow = r.choice([0.0, 0.5, 2.0, 4.0]) * r.choice([1, -1])       # scan lines bowing north/south
+        bulge = r.choice([0.0, 0.0, 1.0, 3.0]) * r.choice([1, -1])     # along-track bulge: the extreme is an interior row
+        skew = r.choice([0.0, 0.5, -1.0])
+        lons, lats = [], []
+        mid = (ncol - 1) / 2.0
+        for i in range(nrow):
+            for j in range(ncol):
+                u = (j - mid) / mid
+                la = lat0 + i * dlat - bow * u * u + bulge * math.sin(math.pi * i / (nrow - 1)) * (1 - u * u)
+                lo = lon0 + (j - mid) * dlon + skew * i
+                lons.append(((lo + 180.0) % 360.0) - 180.0)
+                lats.append(max(-88.0, min(88.0, la)))
+        pc = "swath2d" + ("+bulge" if bulge else "") + ("+bow" if bow else "")
+        if r.random() < 0.1:
+            k = r.randrange(len(lons))
+            lons[k], lats[k] = NAN, NAN
+            pc += "+nan"
+        crs = r.choice([{"proj": "omerc", "ellps": "WGS84"}, {"proj": "omerc"}, {"proj": "laea"}, {"proj": "stere"}, {"proj": "merc"},
+                        {"proj": "eqc"}])
+        res = r.choice([None, 5000.0, 20000.0, 50000.0])
+        where = r.choice(["ctor", "freeze"])
+        out.append({"crs": crs, "crs_kind": "opt_" + crs["proj"], "points": pc, "pattern": "optimize" + ("_res_" + where if res else ""),
+                    "optimize": True, "via": None,
+                    "ctor": {"resolution": res_json(res)} if res and where == "ctor" else {},
+                    "freeze": {"resolution": res_json(res)} if res and where == "freeze" else {},
+                    "lons": [hexs(v) for v in lons], "lats": [hexs(v) for v in lats], "shape2d": [nrow, ncol],
+                    "kind": r.choice(["swath", "swath_xr", "swath_dask", "swath_xr_dask"]), "chunks": r.choice([2, 3, 100])})
+    return out
+
+
+def gen_history_cases(ctx):
+    """several freezes on ONE DynamicAreaDefinition (different proj_info / modes / data): each must equal a fresh object's"""
+    r = ctx.rng
+    out = []
+    for _ in range(ctx.n(30, 300)):
+        crs = r.choice([{"proj": "lcc"}, {"proj": "omerc"}, {"proj": "laea"}, {"proj": "stere"}, {"proj": "longlat"}, "EPSG:4326",
+                        {"proj": "merc"}])
+        geo = crs in ({"proj": "longlat"}, "EPSG:4326")
+        calls = []
+        for _k in range(r.choice([2, 3, 4])):
+            lon0, lat0 = r.uniform(-30, 30), r.uniform(30, 60)
+            n = r.choice([2, 4, 7])
+            lons = [lon0 + r.uniform(-5, 5) for _ in range(n)]
+            lats = [lat0 + r.uniform(-5, 5) for _ in range(n)]
+            fz = {}
+            if geo:
+                if r.random() < 0.5:
+                    lons = [179.0, -179.0] + lons[2:]
+                    fz["antimeridian_mode"] = r.choice(MODES[1:4])
+                fz["resolution"] = res_json(r.choice([0.5, 1.0]))
+            else:
+                fz["resolution"] = res_json(r.choice([10000.0, 25000.0]))
+                name = crs["proj"] if isinstance(crs, dict) else ""
+                info = {"lat_0": r.choice([40, 52]), "lon_0": r.choice([0, 13])}
+                if name == "lcc":
+                    info["lat_1"] = r.choice([40, 50])
+                    if r.random() < 0.5:
+                        info["lat_2"] = r.choice([55, 60])
+                elif name == "omerc":
+                    info = {"lat_0": r.choice([40, 52]), "lonc": r.choice([0, 13]), r.choice(["alpha", "gamma"]): r.choice([10, 30])}
+                elif name == "stere" and r.random() < 0.5:
+                    info["lat_ts"] = r.choice([60, 70])
+                if r.random() < 0.85:
+                    fz["proj_info"] = info
+            calls.append({"freeze": fz, "lons": [hexs(v) for v in lons], "lats": [hexs(v) for v in lats], "kind": "numpy", "shape2d": None})
+        out.append({"crs": crs, "ctor": {}, "calls": calls})
+    return out
+
+
+def oracle_history(h, o):
+    bad = []
+    if "calls" not in o:
+        return [("C14.history", "constructor failed: %s" % o)]
+    for k, (call, c) in enumerate(zip(h["calls"], o["calls"])):
+        if c["same"] != c["fresh"]:
+            key = "C14.history.proj_info" if any("proj_info" in x["freeze"] for x in h["calls"][:k + 1]) else "C14.history"
+            bad.append((key, "freeze #%d on the same DynamicAreaDefinition(%s) differs from a fresh object's: %s vs %s (calls so far: %s)"
+                        % (k + 1, h["crs"], c["same"], c["fresh"], [x["freeze"] for x in h["calls"][:k + 1]])))
+            break
+    return bad
 
 
 def gen_cd_cases(ctx):
@@ -300,6 +395,20 @@ def oracle_freeze(case, o):
     shape = None if None in hw else hw
     explicit = bool(ctor.get("area_extent")) and bool(hw[0]) and bool(hw[1])
     tag = "%s/%s/%s" % (case.get("crs_kind"), case.get("points"), case.get("pattern"))
+    if case.get("optimize"):
+        # compute_optimal_bb_area: the resolution only steers the uniform shape; the area is fitted with that shape
+        bad = oracle_freeze_core(case, o, None, o.get("opt_shape") or [2, 2], False, tag)
+        return [("C14.optimize_projection.contains" if k.startswith(("C14.contains", "C14.extent", "C14.freeze.error")) else k, w)
+                for k, w in bad]
+    return oracle_freeze_core(case, o, res, shape, explicit, tag)
+
+
+def oracle_freeze_core(case, o, res, shape, explicit, tag):
+    bad = []
+    ctor, fz = case.get("ctor", {}), case.get("freeze", {})
+    lons = [float.fromhex(v) for v in case["lons"]]
+    lats = [float.fromhex(v) for v in case["lats"]]
+    hw = shape if shape is not None else [None, None]
     if explicit:
         if "result" not in o:
             return [("C14.explicit_kept", "explicit extent and shape given but freeze raised %s (%s)" % (o.get("error"), tag))]
@@ -406,6 +515,16 @@ def oracle_freeze(case, o):
         bad.append(("C14.antimeridian.modify_crs", "modify_crs: extent %s leaves the [-180, 180] range of the shifted CRS (%s)" % (ext, tag)))
     if not R["geo"] and R["pm180"]:
         bad.append(("C14.antimeridian.modify_crs", "prime meridian changed for a non-geographic CRS (%s)" % tag))
+    # H_pm (reading of PROJ's +pm=180 used by C14_freeze_contains_points / frozen_x): the coordinate PROJ gives in the frozen
+    # CRS is the implementation's own projected x, modulo 360, minus 180 when the prime meridian was moved
+    if R["geo"] and "pts" in o and len(o["pts"]) == len(o.get("proj", [])):
+        for i, x, y in pts:
+            x0 = fx(o["pts"][i][0])
+            if finite(x0):
+                dlt = (x - (x0 - (180.0 if R["pm180"] else 0.0))) / 360.0
+                if abs(dlt - round(dlt)) > 1e-9:
+                    bad.append(("C14.pm_shift.reading", "PROJ places lon %r at x=%r in %s, not at (%r - pm) modulo 360 (%s)" % (lons[i], x, R["crs"], x0, tag)))
+                    break
     return bad
 
 
@@ -457,6 +576,14 @@ def coq_fcase(case, o):
                                   oz(ctor.get("width")), oz(ctor.get("height")), res_coq(rj(ctor.get("resolution"))))
     fs = fz.get("shape")
     fshape = "None" if fs is None else "(Some (%s, %s))" % (oz(fs[0]), oz(fs[1]))
+    geo = o.get("geo")
+    fres = res_coq(rj(fz.get("resolution")))
+    if case.get("optimize"):
+        # model: optimal_bb_area h w = freeze of an empty DynamicAreaDefinition with shape (h, w) on all positions
+        hw = o.get("opt_shape") or [0, 0]
+        d, fres, fshape = "(mk_dyn None None None RNone)", "RNone", "(Some (%s, %s))" % (oz(hw[0]), oz(hw[1]))
+        mode = None
+        geo = o["result"]["geo"] if "result" in o else False
     aou = o.get("aou")
     aou = "(mk_aou %s %s)" % ((flit(fx(aou[0])), flit(fx(aou[1]))) if aou else (flit(-180.0), flit(180.0)))
     pts = "[" + "; ".join("(%s, %s)" % (flit(fx(a)), flit(fx(b))) for a, b in o.get("pts", [])) + "]"
@@ -465,7 +592,7 @@ def coq_fcase(case, o):
         exp = "(Some ((%s), (%d), (%d), %s))" % (", ".join(flit(fx(v)) for v in R["extent"]), R["w"], R["h"], "true" if R["pm180"] else "false")
     else:
         exp = "None"
-    return "(%s, %s, %s, %s, %s, %s, %s, %s)" % (d, res_coq(rj(fz.get("resolution"))), fshape, "true" if o.get("geo") else "false",
+    return "(%s, %s, %s, %s, %s, %s, %s, %s)" % (d, fres, fshape, "true" if geo else "false",
                                                 MODE_COQ.get(mode, "MOther"), aou, pts, exp)
 
 
@@ -524,7 +651,16 @@ def run(ctx):
     r = ctx.rng
     wraps = [r.uniform(-400, 800) for _ in range(ctx.n(150, 1500))] + [0.0, -0.0, 360.0, -360.0, 720.0, 180.0, -180.0, 1e-20, -1e-20,
                                                                      359.99999999999994, -5e-324, 1e300, -1e300, NAN, math.inf]
-    obs = ctx.impl("c14", {"freeze": fcases, "compute_domain": ccases, "wrap": [hexs(v) for v in wraps]})
+    hcases = gen_history_cases(ctx)
+    obs = ctx.impl("c14", {"freeze": fcases, "compute_domain": ccases, "wrap": [hexs(v) for v in wraps], "history": hcases})
+    for h, o in zip(hcases, obs["history"]):
+        name = h["crs"]["proj"] if isinstance(h["crs"], dict) else h["crs"]
+        ctx.count("history:%s x%d" % (name, len(h["calls"])))
+        ctx.case(("hist", repr(h)), nontrivial=True, sample={"history": {"crs": h["crs"], "calls": [c["freeze"] for c in h["calls"]]},
+                                                             "impl_last": o.get("calls", [o])[-1]})
+        ctx.traces += 1
+        for key, what in oracle_history(h, o):
+            ctx.add_failure(key, what, {"oracle": "history", "case": h, "impl": o})
 
     L, LI = [], []
     skipped = 0
@@ -534,6 +670,7 @@ def run(ctx):
         ctx.count("args:" + case["pattern"])
         ctx.count("points:" + case["points"].split("+")[0])
         ctx.count("mode:%s" % case["freeze"].get("antimeridian_mode"))
+        ctx.count("entry:" + ("optimize_projection" if case.get("optimize") else (case.get("via") or "DynamicAreaDefinition()")))
         ctx.count("outcome:" + ("area" if "result" in o else "error:%s" % o.get("error")))
         if "result" in o and o["result"]["pm180"]:
             ctx.count("branch:pm180")
@@ -606,6 +743,9 @@ def replay(ctx, data):
     if c.get("oracle") == "freeze":
         o = ctx.impl("c14", {"freeze": [c["case"]]})["freeze"][0]
         return bool(oracle_freeze(c["case"], o))
+    if c.get("oracle") == "history":
+        o = ctx.impl("c14", {"history": [c["case"]]})["history"][0]
+        return bool(oracle_history(c["case"], o))
     if c.get("oracle") == "compute_domain":
         o = ctx.impl("c14", {"compute_domain": [c["case"]]})["compute_domain"][0]
         return bool(oracle_cd(c["case"], o))
